@@ -95,7 +95,7 @@ class C07(Prop):
             k = max(k, k2)
             yield k2, p
         k += 10_000_000
-        for j in range(350 if q else 12000):
+        for j in range(350 if q else 7000):
             rng = random.Random('%d/%d/c07b' % (seed, j))
             cfg = docgen.Cfg(maxdepth=(2, 3, 3, 4)[j % 4], size=(2, 3, 4)[j % 3],
                              weights=B_WEIGHTS, brackets_in_text=False)
